@@ -168,6 +168,9 @@ def mk_message(d):
     for k in ('observe', 'no_response', 'size1', 'size2'):
         if isinstance(o, dict) and o.get(k) is not None:
             setattr(m.opt, k, o[k])
+    for k in ('uri_path', 'uri_query'):
+        if isinstance(o, dict) and o.get(k):
+            setattr(m.opt, k, tuple(o[k]))
     for k in ('block1', 'block2'):
         if isinstance(o, dict) and o.get(k) is not None:
             n, more, szx = o[k]
